@@ -35,6 +35,21 @@ class FaultyWorld(world.World):
     def net_up(self, msg):
         return self._net()
 
+    def route_up(self, msg):
+        """a flaky resolver: during the fault period some queries are answered SERVFAIL by the resolver itself and never reach the server"""
+        p = getattr(self, "f_servfail", 0.0)
+        if p and (self.faulty_until is None or self.ms < self.faulty_until) and msg[:3] != C.RAW_HEADER[:3] and self.rng.random() < p:
+            try:
+                q = P.parse(msg)
+                if q["qd"]:
+                    self.stats["servfail"] = self.stats.get("servfail", 0) + 1
+                    self.down.append((self.ms + 1 + (self.rng.randrange(self.f_delay) if self.f_delay else 0),
+                                      P.header(q["id"], 0x8182, 1, 0) + P.question(q["qd"][0][0], q["qd"][0][1])))
+                    return
+            except P.Malformed:
+                pass
+        super().route_up(msg)
+
     def net_down(self, msg):
         return self._net()
 
@@ -99,6 +114,7 @@ def one_world(args):
         t0 = w.ms
         if fault:
             w.f_drop, w.f_dup, w.f_delay = fault["drop"], fault["dup"], fault["delay"]
+            w.f_servfail = fault.get("servfail", 0.0)
             w.faulty_until = t0 + fault["ms"]
         # offer packets on both sides, spread over the faulty period and after it
         sizes = SIZES if scenario not in ("auto", "forced") else [0, 1, 20, 60, 100]
